@@ -19,7 +19,7 @@ PYOP = {'<': _o.lt, '<=': _o.le, '==': _o.eq, '>': _o.gt, '>=': _o.ge,
 VGRID = [None]
 SUFFIXES = {'a', 'alpha', 'b', 'beta', 'rc'}
 VERSIONS = ('1.0', '1.2', '1.5', '1.5.0', '2.0', '0.9', '1.0rc1', '1!1.0',
-            '1!0.5', '1.0.post1', '2.0rc1', '2.0.dev1')
+            '1!0.5', '1.0.post1', '2.0rc1', '2.0.dev1', '2.0.post1')
 VERSIONS_THOROUGH = VERSIONS + (
     '2a1', '1.0.0.0', '1', '0', '0.0', '1.0+local.1', 'v1.0', '1.0.dev0',
     '1.0a1.dev2', '1.0.post1.dev3', '2!0.1', '1.10', '1.9', '01.0', '1.0-1',
@@ -38,6 +38,22 @@ def _version_hook():
                 return pv.Version(s)
             except pv.InvalidVersion:
                 raise Raised('packaging.version.InvalidVersion')
+        if isinstance(v, T) and v.op == 'call' and v.args[0] in (
+                'packaging.specifiers.Specifier',
+                'packaging.specifiers.SpecifierSet'):
+            # other packaging objects a rewrite may compare with
+            import packaging.specifiers as ps
+            from ..core.termeval import ev, Raised
+            pos, kw = [], {}
+            for a in v.args[1:]:
+                if isinstance(a, T) and a.op == 'kw':
+                    kw[a.args[0]] = ev(a.args[1], val, [hook])
+                else:
+                    pos.append(ev(a, val, [hook]))
+            try:
+                return getattr(ps, v.args[0].rsplit('.', 1)[1])(*pos, **kw)
+            except ps.InvalidSpecifier:
+                raise Raised('packaging.specifiers.InvalidSpecifier')
         return NotImplemented
     return hook, pv
 
@@ -346,7 +362,7 @@ def _predicate(ctx):
                  '>1', '<=0', '~=1.0', '===1.0', '>=v1.0', '>=1.0,<=1.0',
                  ',>=1.0', '>=1.0,,<2.0', '>=1.0\n', '\t>=1.0']
     else:
-        extra = ['>=1!2.0', '<2.0rc1']
+        extra = ['>=1!2.0', '<2.0rc1', '>2.0', '<2.0', '>1.0,<2.0']
     preds = extra + ['>=1.0', '<1.0,<1.5.0', '>=1.0,<2.0,!=1.5', '==1.0', ' > 1.0 ',
              '<=1.5 , >=1.2', '!=1.0,!=2.0', '>1.0,>1.2', 'bad', '>=', '=1.0',
              '>=1.0,', '>= 1.0 2.0']
@@ -374,6 +390,11 @@ def _predicate(ctx):
             interp.pure_calls.add('packaging.version.Version')
             interp.call_raises['packaging.version.Version'] = [
                 'packaging.version.InvalidVersion']
+            for n in ('Specifier', 'SpecifierSet'):
+                interp.pure_calls.add('packaging.specifiers.' + n)
+                interp.call_raises['packaging.specifiers.' + n] = [
+                    'packaging.specifiers.InvalidSpecifier']
+            interp.pure_methods.update({'contains'})
             interp.types[cand] = 'str'
         outcomes, _i = extract(world, thunk, setup=setup, depth=6)
 
